@@ -12,14 +12,14 @@ LEVEL = "other"
 TECHNIQUE = "differential classification: spec-level oracle (z3 difference logic for priority cycles, structural rules for the rest) vs concrete run of the real elaboration on generated valid and deliberately invalid designs"
 OPTS = dict(p_mbefore=0.3, multi=True, mgroup=True, p_single_group=0.3, alias=True, combiner=True, fsm=True, nested_methods=True, single_caller=True, ready_dep=True, p_fresh=0.5, mprio=True, p_tm_conflict=0.2,
             p_conflict=0.6, p_before=0.5, invalid=True)
-BOUNDS = {"quick": "60 batches x 25 random specs (valid and invalid), eager scheduler", "thorough": "600 batches x 40 random specs"}
+BOUNDS = {"quick": "60 batches x 25 random specs (valid and invalid), eager scheduler", "thorough": "1800 batches x 40 random specs"}
 OUTSIDE = OUTSIDE_COMMON + ["other grounds on which the library rejects designs (undefined methods, layout mismatches, simultaneity constraints)"]
 ASSUMES = ASSUMES_COMMON + ["any exception type raised by elaboration counts as rejection (cyclic priorities surface as networkx.NetworkXUnfeasible)"]
 EXPLANATION = __doc__
 
 
 def configs(tier, seed):
-    return batch_configs(tier, seed, 60, 600, 25 if tier == "quick" else 40, OPTS, ("eager",))
+    return batch_configs(tier, seed, 60, 1800, 25 if tier == "quick" else 40, OPTS, ("eager",))
 
 
 def run(cfg, ctx):
